@@ -20,7 +20,7 @@ def worker(job):
     rng = random.Random(job["seed"])
     cfg = rigp.Cfg.from_json(job["cfg"])
     res = {"msgs": 0, "installations": 0, "bad": [], "boots_changes": 0, "receives": 0, "salts_distinct": 0}
-    state = {"reply": False}
+    state = {"reply": False, "rng": random.Random(job["seed"] + 5)}
 
     def handler(agent, req):
         if not req.ok:
@@ -32,7 +32,18 @@ def worker(job):
         if not state["reply"]:
             return None
         vb = B.enc_varbind((req.oids() or [(1, 3)])[0], B.enc_int(1))
-        return agent.reply(req, [vb])
+        dg = agent.reply(req, [vb])
+        out = []
+        if state.get("last_reply") is not None and state["rng"].random() < 0.5:
+            # a late duplicate of an EARLIER encrypted reply, damaged in transit (one ciphertext octet flipped; the datagram itself stays
+            # well-formed), arrives first: it is dropped - and whatever the client did while looking at it must not touch the
+            # salt counter of its own next message
+            old = bytearray(state["last_reply"])
+            old[-1 - state["rng"].randrange(0, 24)] ^= state["rng"].choice([0x41, 0x80, 0xFF])
+            out.append(bytes(old))
+            res["damaged_duplicates"] = res.get("damaged_duplicates", 0) + 1
+        state["last_reply"] = dg
+        return out + [dg]
 
     agent = rigp.Agent(handler, users=[cfg.user_keys()], rng=random.Random(job["seed"]), boots=rng.randrange(1, 1000), etime=5).start()
     sess = rigp.make_session(cfg, agent, timeout=1.5)
@@ -288,6 +299,7 @@ def main():
         st["distinct_salts"] += res["salts_distinct"]
         st["refused_set_keys"] = st.get("refused_set_keys", 0) + res.get("refused_set_keys", 0)
         st["wrap_installations"] = st.get("wrap_installations", 0) + res.get("wrap_installations", 0)
+        st["damaged_duplicates"] = st.get("damaged_duplicates", 0) + res.get("damaged_duplicates", 0)
         for x in res.get("samples", [])[:1]:
             chk.sample(x, limit=5)
         key = rigp.Cfg.from_json(o["job"]["cfg"]).key()
